@@ -904,10 +904,26 @@ class NestedContainer(Task, Iterable):
     def __dask_tokenize__(self):
         from dask.tokenize import tokenize
 
+        # The order of the elements is part of the value of a list or tuple. A
+        # set is the same value for every order of its elements, a dict for
+        # every order of its key/value pairs (but not for another pairing).
+        if self.klass is dict:
+            # (stable sort on the keys only: the last one of a repeated key wins)
+            tokens = [
+                (tk, tokenize(v))
+                for tk, v in sorted(
+                    ((tokenize(k), v) for k, v in batched(self.args, 2, strict=True)),
+                    key=lambda kv: kv[0],
+                )
+            ]
+        else:
+            tokens = [tokenize(a) for a in self.args]
+            if self.klass is set:
+                tokens = sorted(tokens)
         return (
             type(self).__name__,
             self.klass,
-            sorted(tokenize(a) for a in self.args),
+            tokens,
         )
 
         return super().__dask_tokenize__()
